@@ -107,7 +107,7 @@ def rust_source(harnesses, cfg, prelude=""):
     out.append("];")
     txt = "\n".join(out) + "\n"
     # va!("id", cond); (one line) -> assert!(cond, "VA:id");   (Kani's assert! wants a literal message)
-    txt = re.sub(r'va!\("([^"]*)",\s*(.*)\);[ \t]*$', lambda m: f'va_!("VA:{m.group(1)}", {m.group(2)});', txt, flags=re.M)
+    txt = txt.replace('va!("', 'va_!("VA:')
     txt = re.sub(r'vcover!\("([^"]*)"\);', lambda m: f'#[cfg(kani)] kani::cover!(true, "VC:{m.group(1)}");', txt)
     return txt
 
